@@ -29,6 +29,12 @@ SHIPPED = {
 
 def import_env():
     """Import the Gym environment layer (8-40 s: pulls torch). Call before the worker pool is forked."""
+    import sys
+
+    # The environment module imports torch only to seed torch's RNG (nothing in the simulation uses it). Blocking the
+    # import keeps the checking process small (fork snapshots 5 ms instead of 10+) and the import at 2.5 s instead of 8-40 s.
+    if "torch" not in sys.modules:
+        sys.modules["torch"] = None
     from primaite.session.environment import PrimaiteGymEnv  # noqa
 
     common.quiet()
